@@ -435,7 +435,7 @@ func (a *Allocation) packetConnHandler(manager *Manager) {
 	for {
 		n, srcAddr, err := a.relayPacketConn.ReadFrom(buffer)
 		if err != nil {
-			manager.DeleteAllocation(a.fiveTuple)
+			manager.endAllocation(a)
 
 			return
 		}
@@ -502,7 +502,7 @@ func (a *Allocation) connHandler(manager *Manager) {
 	for {
 		conn, err := a.relayListener.Accept()
 		if err != nil {
-			manager.DeleteAllocation(a.fiveTuple)
+			manager.endAllocation(a)
 
 			return
 		}
